@@ -175,34 +175,74 @@ fn check_vertex(scratch: &Scratch, mask: u32, tier: Tier, st: &mut Stats) {
 }
 
 /// edges = segments between lattice points; class = index parity; one restricted edge
-fn edge_sets() -> Vec<Vec<(usize, usize)>> {
-    vec![
+/// geometry of an edge between two lattice points: 0 straight, 1 slight edge-specific bend, 2 hairpin (runs on to three
+/// times the distance and comes back: the centroid lies outside the box of the end points), 3 detour to the side
+fn shape_points(e: usize, a: (f32, f32), b: (f32, f32), shape: u8) -> Vec<(f32, f32)> {
+    let (dx, dy) = (b.0 - a.0, b.1 - a.1);
+    match shape {
+        0 => vec![a, b],
+        1 => vec![a, ((a.0 + b.0) / 2.0 + 0.0004 * (e as f32 + 1.0), (a.1 + b.1) / 2.0 - 0.0003 * (e as f32 + 1.0)), b],
+        2 => vec![a, (a.0 + 3.0 * dx, a.1 + 3.0 * dy), b],
+        _ => vec![a, ((a.0 + b.0) / 2.0 - 2.0 * dy, (a.1 + b.1) / 2.0 + 2.0 * dx), b],
+    }
+}
+
+/// (edges as lattice pairs, shape per edge). more than six records make the index a tree of several nodes
+fn edge_sets() -> Vec<(Vec<(usize, usize)>, Vec<u8>)> {
+    let pool: Vec<(usize, usize)> = vec![(0, 1), (1, 2), (3, 4), (4, 5), (6, 7), (7, 8), (0, 3), (3, 6), (1, 4), (4, 7), (2, 5), (5, 8), (0, 4), (4, 8)];
+    let np = pool.len();
+    let mut out: Vec<(Vec<(usize, usize)>, Vec<u8>)> = vec![];
+    // the six sets of the first version (slight bends)
+    for set in [
         vec![(0, 1)],
         vec![(0, 1), (1, 2)],
         vec![(0, 1), (3, 4), (6, 7)],
         vec![(0, 4), (4, 8), (2, 4), (4, 6)],
         vec![(0, 1), (1, 0), (1, 2), (2, 5), (5, 8), (0, 3)],
         vec![(0, 8), (2, 6), (1, 7), (3, 5), (4, 4 + 1)],
-    ]
+    ] {
+        let k = set.len();
+        out.push((set, vec![1; k]));
+    }
+    // every single pool edge in every shape
+    for e in pool.iter() {
+        for sh in 0..4u8 {
+            out.push((vec![*e], vec![sh]));
+        }
+    }
+    // every pair of pool edges, shapes rotating
+    for i in 0..np {
+        for j in i + 1..np {
+            out.push((vec![pool[i], pool[j]], vec![((i + j) % 4) as u8, ((i * j + 1) % 4) as u8]));
+        }
+    }
+    // large sets (7, 9, 12, 14 records): shapes rotating
+    for size in [7usize, 9, 12, 14] {
+        for off in [0usize, 3, 5] {
+            for s0 in 0..4usize {
+                let set: Vec<(usize, usize)> = (0..size).map(|i| pool[(i + off) % np]).collect();
+                let shapes: Vec<u8> = (0..size).map(|i| ((i + s0) % 4) as u8).collect();
+                out.push((set, shapes));
+            }
+        }
+    }
+    // all fourteen, one bent edge among straight ones
+    for h in 0..np {
+        for sh in [2u8, 3] {
+            out.push((pool.clone(), (0..np).map(|i| if i == h { sh } else { 0 }).collect()));
+        }
+    }
+    out
 }
 
 fn check_edges(scratch: &Scratch, si: usize, tier: Tier, st: &mut Stats) {
     st.states += 1;
     st.nontrivial += 1;
-    let edges = &edge_sets()[si];
+    let (edges, shapes) = &edge_sets()[si];
     let m = edges.len();
     let dir = scratch.path.join(format!("e{}", si));
     let _ = std::fs::create_dir_all(&dir);
-    // geometry: three points with an edge-specific bend
-    let geoms: Vec<Vec<(f32, f32)>> = edges
-        .iter()
-        .enumerate()
-        .map(|(e, (a, b))| {
-            let (ax, ay) = lattice(*a);
-            let (bx, by) = lattice(*b);
-            vec![(ax, ay), ((ax + bx) / 2.0 + 0.0004 * (e as f32 + 1.0), (ay + by) / 2.0 - 0.0003 * (e as f32 + 1.0)), (bx, by)]
-        })
-        .collect();
+    let geoms: Vec<Vec<(f32, f32)>> = edges.iter().enumerate().map(|(e, (a, b))| shape_points(e, lattice(*a), lattice(*b), shapes[e])).collect();
     let gfile = dir.join("geometries.txt");
     std::fs::write(&gfile, geoms.iter().map(|g| format!("LINESTRING ({})\n", g.iter().map(|(x, y)| format!("{} {}", x, y)).collect::<Vec<_>>().join(", "))).collect::<String>()).expect("write");
     let classes: Vec<u8> = (0..m).map(|e| (e % 2) as u8).collect();
@@ -233,7 +273,7 @@ fn check_edges(scratch: &Scratch, si: usize, tier: Tier, st: &mut Stats) {
     ];
     let pts = query_points();
     for (ti, tol) in tolerances().iter().enumerate() {
-        if tier == Tier::Quick && ti != 0 && (ti + si) % 4 != 0 {
+        if tier == Tier::Quick && ti != 0 && (ti + si) % (if si < 6 { 4 } else { 8 }) != 0 {
             continue;
         }
         let plugin = match guarded(|| {
@@ -287,7 +327,7 @@ fn check_edges(scratch: &Scratch, si: usize, tier: Tier, st: &mut Stats) {
                 }
                 let before = q.clone();
                 let size = m as u64 * 1000 + pi as u64;
-                let case = || json!({"kind": "edge", "edge_set": si, "edges": edges, "tolerance": tol.as_ref().map(|t| (t.0, t.1.to_string())), "filter": fname, "query": before});
+                let case = || json!({"kind": "edge", "edge_set": si, "edges": edges, "shapes": shapes, "tolerance": tol.as_ref().map(|t| (t.0, t.1.to_string())), "filter": fname, "query": before});
                 let r = guarded(|| plugin.process(&mut q).map_err(|e| e.to_string()));
                 let (ids, must_err, bd) = expect(&admissible, *px, *py, tol);
                 // the matcher gives up at the first candidate (admissible or not) beyond the tolerance; when an inadmissible
@@ -339,7 +379,8 @@ pub fn run(tier: Tier) -> i32 {
     let info = RunInfo::new("C16", tier);
     let scratch = Scratch::new("c16");
     // vertex sets: all subsets of size 1..4 of the 3 x 3 lattice
-    let masks: Vec<u32> = (1u32..512).filter(|m| m.count_ones() <= 4).collect();
+    // (quick: sizes 1-4 and 7-9, so that the index is a tree of several nodes as well)
+    let masks: Vec<u32> = (1u32..512).filter(|m| tier == Tier::Thorough || m.count_ones() <= 4 || m.count_ones() >= 7).collect();
     let mut st = par_blocks(masks.len() as u64, 4, |lo, hi, st| {
         for i in lo..hi {
             check_vertex(&scratch, masks[i as usize], tier, st);
@@ -353,13 +394,13 @@ pub fn run(tier: Tier) -> i32 {
     });
     st.merge(est);
     st.sample(3, || json!({"kind": "vertex", "lattice_vertices": [0, 4, 8], "tolerance": [700.0, "meters"], "query": {"origin_x": 0.005, "origin_y": 0.005, "destination_x": 0.02, "destination_y": 0.025}}));
-    st.sample(3, || json!({"kind": "edge", "edges": edge_sets()[4], "filter": "classes_and_vehicle", "tolerance": null, "query": {"origin_x": 0.0, "origin_y": 0.0}}));
+    st.sample(3, || json!({"kind": "edge", "edges": edge_sets()[4].0, "filter": "classes_and_vehicle", "tolerance": null, "query": {"origin_x": 0.0, "origin_y": 0.0}}));
     finish(
         &info,
         st,
-        "state = one vertex set (all 255 subsets of size 1-4 of a 3x3 lattice) or edge set (6 segment sets with class table and one restricted edge); transition = one real plugin invocation for one query point of a 7x7 lattice reaching beyond the network (+3 far/odd points), with and without destination, under one tolerance (none, or 100/700/1300/5000 m expressed in m/km/mi/ft) and one road-class/vehicle filter; oracle = exhaustive scan under the plugin's own measure (squared f32 coordinate distance; to the linestring centroid for edges), tolerance by the code's haversine; non-trivial = more than one candidate",
+        "state = one vertex set (subsets of a 3x3 lattice: sizes 1-4 and 7-9 quick, all 511 thorough) or edge set (every single edge and every pair of a 14-edge pool, sets of 7-14 records, all 14 with one bent edge; four geometry shapes: straight, slight bend, hairpin, detour; class table and one restricted edge); transition = one real plugin invocation for one query point of a 7x7 lattice reaching beyond the network (+3 far/odd points), with and without destination, under one tolerance (none, or 100/700/1300/5000 m expressed in m/km/mi/ft) and one road-class/vehicle filter; oracle = exhaustive scan under the plugin's own measure (squared f32 coordinate distance; to the linestring centroid for edges), tolerance by the code's haversine; non-trivial = more than one candidate",
         true,
-        json!({"vertex_sets": 255, "edge_sets": n_sets, "query_points": query_points().len(), "tolerances": tolerances().len(), "filters": 6}),
+        json!({"vertex_sets": masks.len(), "edge_sets": n_sets, "query_points": query_points().len(), "tolerances": tolerances().len(), "filters": 6}),
         vec![
             "ties in the measure are accepted either way".into(),
             "cases within 2e-3 of the tolerance boundary are skipped (>= vs > is not prescribed)".into(),
